@@ -511,6 +511,14 @@ def succLoop (A : Arith α) (asserts : Bool) (args : List NT) (c : α) (comb : L
           | _, _, _ => none
     | _, _ => none
 
+/-- the "finite non-terminal check" of `query` (constant_delay.py:355-364): when the derivation has a next
+    cost, push the next `Derivation` of the rule on the heap of `S` and clear `no_successor` -/
+def pushNext (A : Arith α) (s : St α) (S : NT) (h : List (Deriv α)) (w : Int) (el : Deriv α) (cl : List α)
+    (noSucc : Bool) : St α × Bool :=
+  match cl[el.comb + 1]? with
+  | some c1 => (s.setHeap S (Heapq.push (ltD A) h ⟨A.add (A.ofInt w) c1, el.comb + 1, el.P⟩), false)
+  | none => (s, noSucc)
+
 /-- the end of the `while` loop of `query` (constant_delay.py:390-396) -/
 def exitQuery (s : St α) (fr : Frame α) : Option (St α) :=
   let s1? : Option (St α) :=
@@ -572,14 +580,9 @@ mutual
                   | some (s2, possibles) =>
                     match AList.lookup args s2.emptiesDer, AList.lookup args s2.costDer, AList.lookup fr.S s2.queueNt with
                     | some em, some cl, some h2 =>
-                      let isEmpty := em.contains el.comb
-                      let (s3, ns) : St α × Bool :=
-                        match cl[el.comb + 1]? with
-                        | some c1 =>
-                          (s2.setHeap fr.S (Heapq.push (ltD E.A) h2 ⟨E.A.add (E.A.ofInt w) c1, el.comb + 1, el.P⟩), false)
-                        | none => (s2, fr.noSucc)
-                      if isEmpty then resume E f s3 { fr with noSucc := ns }
-                      else resume E f s3 { fr with noSucc := ns, cur := some (el.P, possibles, []) }
+                      let pn := pushNext E.A s2 fr.S h2 w el cl fr.noSucc
+                      if em.contains el.comb then resume E f pn.1 { fr with noSucc := pn.2 }
+                      else resume E f pn.1 { fr with noSucc := pn.2, cur := some (el.P, possibles, []) }
                     | _, _, _ => none
               | _, _ => none
   /-- `for x in self.query(S, ci): pass` from a suspended state -/
@@ -785,5 +788,37 @@ def take (E : Env α) (fuel : Nat) : Nat → Gen α → List Prog → Option (Ge
     | none => none
     | some (g', none) => some (g', acc, true)
     | some (g', some p) => take E fuel k g' (acc ++ [p])
+
+/-- a history of the enumerator object: `take k` = `k` calls of `next(generator)`, `merge` = a call of
+    `merge_program(representative, other)` between two of them -/
+inductive Act where
+  | take (k : Nat)
+  | merge (other : Prog) (ty : Nat)
+
+/-- everything yielded along a history -/
+def runHist (E : Env α) (fuel : Nat) : List Act → Gen α → List Prog → Option (Gen α × List Prog)
+  | [], g, out => some (g, out)
+  | .merge p t :: rest, g, out => runHist E fuel rest (merge E g p t) out
+  | .take k :: rest, g, out =>
+    match take E fuel k g [] with
+    | none => none
+    | some (g', ys, _) => runHist E fuel rest g' (out ++ ys)
+
+/-! ### specification: the language of the grammar -/
+
+/- `derives G S p`: the program `p` is derivable from the non-terminal `S` (its head symbol is a rule
+   of `S` and its arguments are derivable from the argument non-terminals of that rule, one each) -/
+mutual
+  def derives (G : Gram) : NT → Prog → Bool
+    | S, .node P kids =>
+      match G.rule? S P with
+      | none => false
+      | some (args, _) => derivesL G args kids
+  def derivesL (G : Gram) : List NT → List Prog → Bool
+    | [], [] => true
+    | a :: as, k :: ks => derives G a k && derivesL G as ks
+    | [], _ :: _ => false
+    | _ :: _, [] => false
+end
 
 end PS.CD
